@@ -49,6 +49,10 @@ def builtin(I, name):
         return _I().ExtRef("builtins." + name)
     if name == "Ellipsis":
         return Ellipsis
+    import builtins as _b
+    if hasattr(_b, name):
+        # a real Python builtin without a model: the analysis is incomplete, the program is not wrong
+        raise Undecided(f"python builtin `{name}` is not modelled")
     return None
 
 
@@ -93,7 +97,11 @@ def _arr(x):
     if isinstance(x, (list, tuple)):
         raise Undecided("python sequence as array")
     if isinstance(x, it.IdxArr):
-        return idx_to_val(x)
+        v = idx_to_val(x)
+        if x.mesh is not None:
+            pos, n = x.mesh
+            v = nf.expand_dims(v, [None] * pos + ["k"] + [None] * (n - pos - 1))
+        return v
     raise Undecided(f"{type(x).__name__} as array")
 
 
@@ -272,7 +280,45 @@ def j_einsum(I, args, kw):
     spec = args[0]
     if not isinstance(spec, str):
         raise Undecided("non-literal einsum spec")
-    return nf.einsum(spec, *[_arr(a) for a in args[1:]])
+    ops = [_arr(a) for a in args[1:]]
+    spec = spec.replace(" ", "")
+    ins, out = (spec.split("->") + [None])[:2] if "->" in spec else (spec, None)
+    ins = ins.split(",")
+    if len(ins) != len(ops):
+        raise ShapeError(f"einsum '{spec}': {len(ins)} subscripts for {len(ops)} operands")
+    # ellipsis -> explicit (upper-case) letters, right-aligned
+    if any("..." in x for x in ins) or (out is not None and "..." in out):
+        import string
+        pool = [c for c in string.ascii_uppercase if c not in spec]
+        nmax = 0
+        new_ins = []
+        for sub, v in zip(ins, ops):
+            if "..." in sub:
+                n = len(v.axes) - (len(sub) - 3)
+                if n < 0:
+                    raise ShapeError(f"einsum '{spec}': operand of rank {len(v.axes)} for subscript '{sub}'")
+                nmax = max(nmax, n)
+                new_ins.append((sub, n))
+            else:
+                new_ins.append((sub, None))
+        ell = pool[:nmax]
+        ins = [sub if n is None else sub.replace("...", "".join(ell[nmax - n:])) for sub, n in new_ins]
+        if out is None:
+            raise Undecided("implicit einsum output with an ellipsis")
+        out = out.replace("...", "".join(ell))
+    # repeated letters inside one operand: take the diagonal first
+    for k, (sub, v) in enumerate(zip(ins, ops)):
+        while len(set(sub)) != len(sub):
+            ch = next(c for c in sub if sub.count(c) > 1)
+            a1 = sub.index(ch)
+            a2 = sub.index(ch, a1 + 1)
+            v = nf.diagonal(v, a1, a2)                       # diagonal axis is appended last
+            sub = "".join(c for j, c in enumerate(sub) if j not in (a1, a2)) + ch
+        ins[k], ops[k] = sub, v
+    if out is None:
+        allc = "".join(ins)
+        out = "".join(sorted(c for c in set(allc) if allc.count(c) == 1))
+    return nf.einsum(",".join(ins) + "->" + out, *ops)
 
 
 def j_tile(I, args, kw):
@@ -374,6 +420,17 @@ def j_dot(I, args, kw):
 
 
 def j_concatenate(I, args, kw):
+    it = _I()
+    if isinstance(args[0], it.SymList):
+        # concatenation of the comprehension elements along `axis`: positions major, the element's own axis minor
+        sl = args[0]
+        v = sl.value
+        if not isinstance(v, Val) or not v.axes:
+            raise Undecided("concatenate of a comprehension with non-array elements")
+        ax = nf._norm_axis(_int(_axis(kw, args, 1, 0)), len(v.axes))
+        axes = list(v.axes)
+        axes[ax] = tuple(sl.vars) + tuple(axes[ax])
+        return Val(axes, v.terms, kind=v.kind)
     vals = [_arr(a) for a in args[0] if not isinstance(a, EmptyRows)]
     ax = _int(_axis(kw, args, 1, 0))
     return nf.concat(vals, ax)
@@ -436,6 +493,10 @@ def j_arange(I, args, kw):
 def j_array(I, args, kw):
     it = _I()
     x = args[0]
+    if isinstance(x, it.SymList):
+        return _symlist_val(x, 0)
+    if isinstance(x, it.IdxArr):
+        return x
     if isinstance(x, Val):
         return x
     if isinstance(x, (list, tuple)) and all(isinstance(q, int) for q in x):
@@ -514,6 +575,270 @@ def j_pad(I, args, kw):
     return out
 
 
+def _letters(n, skip=""):
+    import string
+    return [c for c in string.ascii_letters if c not in skip][:n]
+
+
+def j_tensordot(I, args, kw):
+    a, b = _arr(args[0]), _arr(args[1])
+    axes = args[2] if len(args) > 2 else kw.get("axes", 2)
+    na, nb = len(a.axes), len(b.axes)
+    if isinstance(axes, int):
+        ax_a, ax_b = list(range(na - axes, na)), list(range(axes))
+    else:
+        ax_a, ax_b = axes
+        ax_a = [ax_a] if isinstance(ax_a, int) else list(ax_a)
+        ax_b = [ax_b] if isinstance(ax_b, int) else list(ax_b)
+    ax_a = [nf._norm_axis(_int(x), na) for x in ax_a]
+    ax_b = [nf._norm_axis(_int(x), nb) for x in ax_b]
+    if len(ax_a) != len(ax_b):
+        raise ShapeError("tensordot: axes lists of different length")
+    L = _letters(na + nb)
+    la, lb = L[:na], L[na:na + nb]
+    for x, y in zip(ax_a, ax_b):
+        lb[y] = la[x]
+    out = [la[k] for k in range(na) if k not in ax_a] + [lb[k] for k in range(nb) if k not in ax_b]
+    return nf.einsum(f"{''.join(la)},{''.join(lb)}->{''.join(out)}", a, b, what="tensordot")
+
+
+def j_inner(I, args, kw):
+    a, b = _arr(args[0]), _arr(args[1])
+    if not a.axes or not b.axes:
+        return nf.mul(a, b)
+    return j_tensordot(I, [a, b, ([len(a.axes) - 1], [len(b.axes) - 1])], {})
+
+
+def j_vdot(I, args, kw):
+    a, b = _arr(args[0]), _arr(args[1])
+    if len(a.axes) != len(b.axes):
+        raise Undecided("vdot of operands of different rank")
+    out = nf.mul(a, b, what="vdot")
+    return nf.sum_axis(out, None, False)
+
+
+def j_outer(I, args, kw):
+    a, b = _arr(args[0]), _arr(args[1])
+    if len(a.axes) > 1 or len(b.axes) > 1:
+        raise Undecided("outer of operands that are not 1-D (flattening)")
+    a = a if a.axes else nf.expand_dims(a, [None])
+    b = b if b.axes else nf.expand_dims(b, [None])
+    return nf.mul(nf.expand_dims(a, ["k", None]), nf.expand_dims(b, [None, "k"]), what="outer")
+
+
+def _perm_transpose(v, perm):
+    """general transposition by successive swaps"""
+    cur = list(range(len(v.axes)))
+    out = v
+    for pos, want in enumerate(perm):
+        j = cur.index(want)
+        if j != pos:
+            out = nf.swapaxes(out, pos, j)
+            cur[pos], cur[j] = cur[j], cur[pos]
+    return out
+
+
+def j_moveaxis(I, args, kw):
+    v = _arr(args[0])
+    src = args[1] if len(args) > 1 else kw["source"]
+    dst = args[2] if len(args) > 2 else kw["destination"]
+    src = [src] if isinstance(src, int) else list(src)
+    dst = [dst] if isinstance(dst, int) else list(dst)
+    nd = len(v.axes)
+    src = [nf._norm_axis(_int(x), nd) for x in src]
+    dst = [nf._norm_axis(_int(x), nd) for x in dst]
+    order = [k for k in range(nd) if k not in src]
+    for d, s_ in sorted(zip(dst, src)):
+        order.insert(d, s_)
+    return _perm_transpose(v, order)
+
+
+def j_matrix_transpose(I, args, kw):
+    v = _arr(args[0])
+    if len(v.axes) < 2:
+        raise ShapeError("matrix_transpose of an array of rank < 2")
+    return nf.swapaxes(v, -1, -2)
+
+
+def j_stack_general(I, args, kw):
+    it = _I()
+    if isinstance(args[0], it.SymList):
+        return _symlist_val(args[0], _int(_axis(kw, args, 1, 0)))
+    vals = [_arr(a) for a in args[0]]
+    nd = len(vals[0].axes)
+    ax = _int(_axis(kw, args, 1, 0))
+    ax = ax + nd + 1 if ax < 0 else ax
+    spec = ["k"] * nd
+    spec.insert(ax, None)
+    return nf.concat([nf.expand_dims(v, spec) for v in vals], ax, what="stack")
+
+
+def _atleast_2d(v):
+    if not v.axes:
+        return nf.expand_dims(v, [None, None])
+    if len(v.axes) == 1:
+        return nf.expand_dims(v, [None, "k"])
+    return v
+
+
+def j_vstack(I, args, kw):
+    return nf.concat([_atleast_2d(_arr(a)) for a in args[0] if not isinstance(a, EmptyRows)], 0, what="vstack")
+
+
+def j_column_stack(I, args, kw):
+    cols = []
+    for a in args[0]:
+        v = _arr(a)
+        if len(v.axes) <= 1:
+            v = nf.expand_dims(v if v.axes else nf.expand_dims(v, [None]), ["k", None])
+        cols.append(v)
+    return nf.concat(cols, 1, what="column_stack")
+
+
+def j_atleast_2d(I, args, kw):
+    return _atleast_2d(_arr(args[0]))
+
+
+def j_atleast_1d(I, args, kw):
+    v = _arr(args[0])
+    return v if v.axes else nf.expand_dims(v, [None])
+
+
+def j_power(I, args, kw):
+    return array_binop(I, ast.Pow(), args[0], args[1])
+
+
+def j_reciprocal(I, args, kw):
+    return nf.elementwise("Recip", _arr(args[0]))
+
+
+def j_mean(I, args, kw):
+    v = _arr(args[0])
+    ax = _axis(kw, args, 1)
+    tot = j_sum(I, [v] + list(args[1:]), kw)
+    nd = len(v.axes)
+    if ax is None:
+        axes = list(range(nd))
+    elif isinstance(ax, (tuple, list)):
+        axes = [nf._norm_axis(_int(a), nd) for a in ax]
+    else:
+        axes = [nf._norm_axis(_int(ax), nd)]
+    n = D(1)
+    for a in axes:
+        n = n * v.shape[a]
+    if n.is_const():
+        return nf.scale(tot, D(1) / n)
+    return nf.mul(tot, nf.elementwise("Recip", nf.const(n)))
+
+
+def j_full(I, args, kw):
+    shp = _shape_arg(args[0])
+    c = args[1] if len(args) > 1 else kw["fill_value"]
+    return nf.mul(nf.ones(shp), _arr(c)) if isinstance(c, Val) else nf.scale(nf.ones(shp), c)
+
+
+def j_full_like(I, args, kw):
+    v = _arr(args[0])
+    c = args[1] if len(args) > 1 else kw["fill_value"]
+    one = nf.add(nf.scale(v, 0), nf.const(1))
+    return nf.mul(one, _arr(c)) if isinstance(c, Val) else nf.scale(one, c)
+
+
+def j_diag(I, args, kw):
+    v = _arr(args[0])
+    if kw.get("k", 0) != 0 or len(args) > 1:
+        raise Undecided("diag with an offset")
+    if len(v.axes) == 1:
+        e = nf.eye(v.shape[0])
+        return nf.mul(nf.expand_dims(v, ["k", None]), e, what="diag")
+    if len(v.axes) == 2:
+        return nf.diagonal(v, 0, 1)
+    raise ShapeError("diag of an array of rank > 2")
+
+
+def f_partial(I, args, kw):
+    it = _I()
+    fn, pre, prekw = args[0], list(args[1:]), dict(kw)
+
+    def call(*a, **k):
+        kk = dict(prekw)
+        kk.update(k)
+        return I.call(fn, pre + list(a), kk)
+    return it.PyCallable(call, "partial")
+
+
+def _symlist_val(sl, pos):
+    """the array whose axis `pos` enumerates the comprehension positions"""
+    it = _I()
+    v = sl.value
+    if it.is_num(v):
+        v = nf.const(v)
+    if not isinstance(v, Val):
+        raise Undecided("comprehension over a symbolic range with non-array elements")
+    pos = pos if pos >= 0 else len(v.axes) + 1 + pos
+    if not 0 <= pos <= len(v.axes):
+        raise ShapeError("stack axis out of range")
+    return Val(list(v.axes[:pos]) + [tuple(sl.vars)] + list(v.axes[pos:]), v.terms, kind=v.kind)
+
+
+def b_sum(I, args, kw):
+    it = _I()
+    if isinstance(args[0], it.SymList):
+        out = nf.sum_axis(_symlist_val(args[0], 0), 0, False)
+        if len(args) > 1 or "start" in kw:
+            out = nf.add(out, _arr(args[1] if len(args) > 1 else kw["start"]))
+        return out
+    items = list(args[0])
+    acc = args[1] if len(args) > 1 else kw.get("start", 0)
+    it = _I()
+    for x in items:
+        if isinstance(acc, Val) or isinstance(x, Val):
+            acc = nf.add(_arr(acc), _arr(x))
+        else:
+            acc = acc + x
+    return acc
+
+
+def b_getattr(I, args, kw):
+    it = _I()
+    try:
+        return I.getattr(args[0], args[1])
+    except it.PyRaise as e:
+        if e.exc == "AttributeError" and len(args) > 2:
+            return args[2]
+        raise
+
+
+def b_hasattr(I, args, kw):
+    it = _I()
+    try:
+        I.getattr(args[0], args[1])
+        return True
+    except it.PyRaise as e:
+        if e.exc == "AttributeError":
+            return False
+        raise
+
+
+def b_range(I, args, kw):
+    it = _I()
+    vals = []
+    for a in args:
+        if not (it.is_num(a) and D(a).is_const() and D(a).value().denominator == 1):
+            if len(args) == 1 and it.is_num(a):
+                return it.SymRange(a)
+            if len(args) == 2 and it.is_num(args[0]) and D(args[0]).is_zero() and it.is_num(a):
+                return it.SymRange(a)
+            raise Undecided("range with symbolic bounds other than range(n)")
+        vals.append(int(D(a).value()))
+    return range(*vals)
+
+
+def b_enumerate(I, args, kw):
+    start = args[1] if len(args) > 1 else kw.get("start", 0)
+    return [(start + k, x) for k, x in enumerate(I.concrete_iter(args[0]))]
+
+
 def j_argsort(I, args, kw):
     """argsort of an index array of distinct entries is a permutation of its positions (an uninterpreted one: every permutation
     is realised by some index list); argsort of a permutation is its inverse; argsort of a sorted array is the identity."""
@@ -585,6 +910,8 @@ def j_all(I, args, kw):
         return _reduce_all("AllTrue", v)
     ax = nf._norm_axis(_int(ax), len(v.axes))
     if not v.axes[ax]:
+        if kw.get("keepdims"):
+            return Val(list(v.axes), v.terms, kind="bool")
         axes = [a for k, a in enumerate(v.axes) if k != ax]
         return Val(axes, v.terms, kind="bool")
     raise Undecided("all over a non-unit axis")
@@ -765,22 +1092,25 @@ def j_vmap(I, args, kw):
             if ax is None:
                 newargs.append(a)
                 continue
-            if ax != 0 or not isinstance(a, Val):
-                raise Undecided("vmap over a non-leading axis / non-array argument")
+            if not isinstance(a, Val) or not isinstance(ax, int) or isinstance(ax, bool):
+                raise Undecided("vmap over a non-array argument / structured in_axes")
             if not a.axes:
                 raise ShapeError("vmap over a 0-d array")
-            A0 = a.axes[0]
+            ax = nf._norm_axis(ax, len(a.axes))
+            A0 = a.axes[ax]
+            rest = list(a.axes[:ax]) + list(a.axes[ax + 1:])
             if len(A0) == 0:
                 unit.append(len(newargs))
-                newargs.append(Val(a.axes[1:], a.terms, kind=a.kind))
+                newargs.append(Val(rest, a.terms, kind=a.kind))
                 continue
-            if len(A0) != 1:
-                raise Undecided("vmap over a composite axis")
             if k is None:
-                k = nf.fresh(nf.size(A0[0]), "v")
-            elif nf.size(k) != nf.size(A0[0]):
-                raise ShapeError(f"vmap: mapped axes have sizes {nf.size(k)} and {nf.size(A0[0])}")
-            newargs.append(Val(a.axes[1:], [(c, n.rename({A0[0]: k})) for c, n in a.terms], kind=a.kind))
+                k = tuple(nf.fresh(nf.size(x), "v") for x in A0)
+            elif len(k) != len(A0) or any(nf.size(x) != nf.size(y) for x, y in zip(k, A0)):
+                if nf.axsize(k) != nf.axsize(A0):
+                    raise ShapeError(f"vmap: mapped axes have sizes {nf.axsize(k)} and {nf.axsize(A0)}")
+                raise Undecided("vmap over differently factored composite axes")
+            ren = dict(zip(A0, k))
+            newargs.append(Val(rest, [(c, n.rename(ren)) for c, n in a.terms], kind=a.kind))
         if k is None and not unit:
             raise Undecided("vmap without a mapped argument")
         if k is None:
@@ -797,22 +1127,24 @@ def j_vmap(I, args, kw):
                     return Val([()], [(D(r), nf.Net())])
                 raise Undecided("vmap body returns a non-array")
             return lift1(res)
-        nf.ST.ambient.add(k)
+        for x in k:
+            nf.ST.ambient.add(x)
         try:
             res = I.call(fn, newargs, {})
         finally:
-            nf.ST.ambient.discard(k)
+            for x in k:
+                nf.ST.ambient.discard(x)
 
         def lift(r):
             if isinstance(r, Val):
                 pos = out_axes if out_axes >= 0 else len(r.axes) + 1 + out_axes
                 if not 0 <= pos <= len(r.axes):
                     raise ShapeError(f"vmap out_axes={out_axes} out of range for a result of rank {len(r.axes)}")
-                return Val(list(r.axes[:pos]) + [(k,)] + list(r.axes[pos:]), r.terms, kind=r.kind)
+                return Val(list(r.axes[:pos]) + [tuple(k)] + list(r.axes[pos:]), r.terms, kind=r.kind)
             if isinstance(r, tuple):
                 return tuple(lift(x) for x in r)
             if it.is_num(r):
-                return Val([(k,)], [(D(r), nf.Net())])
+                return Val([tuple(k)], [(D(r), nf.Net())])
             raise Undecided("vmap body returns a non-array")
         return lift(res)
     return it.PyCallable(mapped, "vmapped")
@@ -981,6 +1313,15 @@ BUILTINS = {
     "dict": lambda I, a, k: dict(*a, **k), "zip": lambda I, a, k: list(zip(*a)),
     "sorted": lambda I, a, k: sorted(*a), "set": lambda I, a, k: set(*a),
     "abs": lambda I, a, k: abs(a[0]) if not isinstance(a[0], Val) else nf.elementwise("Abs", a[0]),
+    "sum": b_sum, "range": b_range, "enumerate": b_enumerate,
+    "getattr": lambda I, a, k: b_getattr(I, a, k), "hasattr": lambda I, a, k: b_hasattr(I, a, k),
+    "setattr": lambda I, a, k: I.setattr(a[0], a[1], a[2]),
+    "any": lambda I, a, k: any(bool(I.truth(x)) for x in I.concrete_iter(a[0])),
+    "all": lambda I, a, k: all(bool(I.truth(x)) for x in I.concrete_iter(a[0])),
+    "str": lambda I, a, k: str(a[0]) if a else "", "callable": lambda I, a, k: not isinstance(a[0], (Val, int, float, str, tuple, list, dict, type(None))),
+    "map": lambda I, a, k: [I.call(a[0], list(xs), {}) for xs in zip(*[I.concrete_iter(x) for x in a[1:]])],
+    "min": lambda I, a, k: min(*a), "max": lambda I, a, k: max(*a),
+    "reversed": lambda I, a, k: list(reversed(I.concrete_iter(a[0]))),
 }
 
 EXT = {
@@ -988,7 +1329,11 @@ EXT = {
     "jax.numpy.take": j_take, "jax.numpy.sum": j_sum, "jax.numpy.swapaxes": j_swapaxes,
     "jax.numpy.diagonal": j_diagonal, "jax.numpy.trace": j_trace, "jax.numpy.dot": j_dot,
     "jax.numpy.concatenate": j_concatenate, "jax.numpy.hstack": j_hstack, "jax.numpy.block": j_block,
-    "jax.numpy.stack": j_stack, "jax.numpy.eye": j_eye, "jax.numpy.zeros": j_zeros, "jax.numpy.ones": j_ones,
+    "jax.numpy.stack": j_stack_general, "jax.numpy.vstack": j_vstack, "jax.numpy.column_stack": j_column_stack,
+    "jax.numpy.tensordot": j_tensordot, "jax.numpy.inner": j_inner, "jax.numpy.vdot": j_vdot, "jax.numpy.outer": j_outer,
+    "jax.numpy.moveaxis": j_moveaxis, "jax.numpy.matrix_transpose": j_matrix_transpose, "jax.numpy.atleast_2d": j_atleast_2d,
+    "jax.numpy.atleast_1d": j_atleast_1d, "jax.numpy.power": j_power, "jax.numpy.reciprocal": j_reciprocal, "jax.numpy.mean": j_mean,
+    "jax.numpy.full": j_full, "jax.numpy.full_like": j_full_like, "jax.numpy.diag": j_diag, "functools.partial": f_partial, "jax.numpy.eye": j_eye, "jax.numpy.zeros": j_zeros, "jax.numpy.ones": j_ones,
     "jax.numpy.empty": j_empty, "jax.numpy.arange": j_arange, "jax.numpy.array": j_array,
     "jax.numpy.where": j_where, "jax.numpy.maximum": j_maximum, "jax.numpy.clip": j_clip, "jax.numpy.argsort": j_argsort, "jax.numpy.pad": j_pad, "jax.numpy.sort": j_sort, "jax.numpy.max": j_max, "jax.numpy.all": j_all,
     "jax.numpy.logical_and": j_logical_and, "jax.numpy.logical_or": j_logical_or, "jax.numpy.logical_not": j_logical_not, "jax.numpy.greater_equal": _cmp0("Ge"),
@@ -1052,6 +1397,19 @@ def call_arr_method(I, v, name, args, kw):
         return j_swapaxes(I, [v] + list(args), kw)
     if name == "transpose" and not args:
         return nf.transpose(v)
+    if name == "transpose":
+        perm = args[0] if len(args) == 1 and isinstance(args[0], (tuple, list)) else list(args)
+        return _perm_transpose(v, [nf._norm_axis(_int(x), len(v.axes)) for x in perm])
+    if name == "mean":
+        return j_mean(I, [v] + list(args), kw)
+    if name == "dot":
+        return j_dot(I, [v] + list(args), kw)
+    if name == "trace":
+        return j_trace(I, [v] + list(args), kw)
+    if name == "flatten" or name == "ravel":
+        return _reshape(v, [-1])
+    if name == "copy":
+        return v
     if name == "take":
         return j_take(I, [v] + list(args), kw)
     raise Undecided(f"array method {name}")
@@ -1193,10 +1551,17 @@ def index(I, v, key):
     if isinstance(v, it.IdxArr):
         if len(key) == 1 and key[0][0] == "idx":
             return _compose_idx(v, key[0][1])
+        kinds = [k[0] for k in key]
+        if v.mesh is None and kinds.count("slice") == 1 and all(k in ("slice", "none") for k in kinds) and all(k[1] is None and k[2] is None for k in key if k[0] == "slice"):
+            # idx[:, None] / idx[None, :] ...: the same index list, placed on one axis of a broadcast (open-mesh) shape
+            import copy
+            w = copy.copy(v)
+            w.mesh = (kinds.index("slice"), len(kinds))
+            return w
         v = idx_to_val(v)
     nd = len(v.axes)
     # expand ellipsis
-    n_consuming = sum(1 for k in key if k[0] in ("slice", "int", "idx"))
+    n_consuming = sum(1 for k in key if k[0] in ("slice", "int", "idx", "sym"))
     if n_consuming > nd:
         raise ShapeError(f"too many indices ({n_consuming}) for array of rank {nd}")
     if any(k[0] == "ellipsis" for k in key):
@@ -1205,11 +1570,24 @@ def index(I, v, key):
         key = key[:pos] + fill + key[pos + 1:]
     else:
         key = list(key) + [("slice", None, None)] * (nd - n_consuming)
-    n_idx = sum(1 for k in key if k[0] == "idx")
-    if n_idx > 1:
-        # open-mesh (ix_) semantics only: each index array on its own axis
-        if not I.flags.get("_ix_mesh_ok", True):
-            raise Undecided("multiple advanced indices")
+    idx_entries = [k for k in key if k[0] == "idx"]
+    mesh_positions = None
+    if len(idx_entries) > 1:
+        # several index arrays: only the open-mesh form (jnp.ix_, or idx[:, None] / idx[None, :]) is modelled - each array selects
+        # along its own axis; numpy's pointwise form x[i1, i2] with equally shaped arrays is a different operation
+        mesh_positions = []
+        for k in idx_entries:
+            m = k[2] if len(k) > 2 else k[1].mesh
+            if m is None or m[1] != len(idx_entries):
+                raise Undecided("several index arrays that do not form an open mesh (pointwise advanced indexing)")
+            mesh_positions.append(m[0])
+        if sorted(mesh_positions) != list(range(len(idx_entries))):
+            raise Undecided("index arrays broadcast onto the same mesh axis")
+        kpos = [i for i, k in enumerate(key) if k[0] == "idx"]
+        if kpos != list(range(kpos[0], kpos[0] + len(kpos))):
+            raise Undecided("non-adjacent index arrays")
+    elif len(idx_entries) == 1 and len(idx_entries[0]) <= 2 and idx_entries[0][1].mesh is not None:
+        raise Undecided("a single broadcast-shaped index array")
     cur = v
     ax = 0
     out_axes_plan = []
@@ -1235,6 +1613,28 @@ def index(I, v, key):
                 cur = nf.slice_axis(cur, ax, i, i + 1)
             cur = Val(cur.axes[:ax] + cur.axes[ax + 1:], cur.terms, kind=cur.kind)
         elif k[0] == "idx":
+            if mesh_positions is not None and not out_axes_plan:
+                out_axes_plan.append(ax)          # first result axis of the mesh
             cur = _gather(cur, ax, k[1])
             ax += 1
+        elif k[0] == "sym":
+            # generic position of a comprehension variable: the axis variable is identified with it
+            A = cur.axes[ax]
+            if len(A) > 1:
+                raise Undecided("symbolic index into a composite axis")
+            if A:
+                if nf.size(A[0]) != nf.size(k[1]):
+                    raise Undecided(f"symbolic index over range({nf.size(k[1])}) into an axis of size {nf.size(A[0])}")
+                cur = Val(cur.axes[:ax] + cur.axes[ax + 1:], [(c, n.rename({A[0]: k[1]})) for c, n in cur.terms], kind=cur.kind)
+            else:
+                if not nf.size(k[1]).is_one():
+                    raise ShapeError(f"index over range({nf.size(k[1])}) into an axis of size 1")
+                cur = Val(cur.axes[:ax] + cur.axes[ax + 1:], cur.terms, kind=cur.kind)
+    if mesh_positions is not None and mesh_positions != sorted(mesh_positions):
+        # key order i -> mesh axis mesh_positions[i]: result axis p of the mesh comes from the key entry with position p
+        a0 = out_axes_plan[0]
+        axes = list(cur.axes)
+        sel = [axes[a0 + mesh_positions.index(p)] for p in range(len(mesh_positions))]
+        axes[a0:a0 + len(sel)] = sel
+        cur = Val(axes, cur.terms, kind=cur.kind)
     return cur
